@@ -1,14 +1,225 @@
 //! Model stand-in for `smallvec` 2.0.0-alpha.12, used ONLY inside the Kani
 //! harness workspaces (wired with [patch.crates-io]).  `SmallVec<T, N>` is a
-//! newtype over `Vec<T>`: the same abstract sequence semantics, without the
-//! inline/heap union and spill logic that CBMC cannot unroll in reasonable time
-//! (a 5th push onto a real `SmallVec<u32, 4>` did not finish in 15 minutes).
+//! fixed-capacity, array-backed sequence with the same abstract semantics as the
+//! real type, but without the inline/heap union, spill and `realloc` logic that
+//! CBMC cannot decide in reasonable time (a 5th push onto a real
+//! `SmallVec<u32, 4>` did not finish in 15 minutes; a heap `Vec` model with a
+//! symbolic write index took 11 minutes for a 16-byte NAK frame).
+//!
+//! Capacity is `MODEL_CAP` elements for every `T` and `N` (default 40, or the
+//! build-time env var `VERIF_SV_CAP`).  Running out of model capacity prunes the
+//! path (`kani::assume`): it is a STATED BOUND of every harness, never a silent
+//! truncation of behaviour the harness claims (harness cover goals guard this).
 //! Native replays run on the real crate.
+use core::mem::MaybeUninit;
 use core::ops::{Deref, DerefMut};
 
-#[derive(Clone, PartialEq, Eq, Hash, PartialOrd, Ord)]
+const fn parse_cap(s: Option<&str>) -> usize {
+    match s {
+        None => 40,
+        Some(s) => {
+            let b = s.as_bytes();
+            let mut i = 0;
+            let mut v = 0usize;
+            while i < b.len() {
+                v = v * 10 + (b[i] - b'0') as usize;
+                i += 1;
+            }
+            v
+        }
+    }
+}
+
+pub const MODEL_CAP: usize = parse_cap(option_env!("VERIF_SV_CAP"));
+
+#[inline]
+fn model_bound(ok: bool) {
+    #[cfg(kani)]
+    kani::assume(ok);
+    #[cfg(not(kani))]
+    assert!(ok, "smallvec model capacity exceeded");
+}
+
 pub struct SmallVec<T, const N: usize> {
-    v: Vec<T>,
+    buf: [MaybeUninit<T>; MODEL_CAP],
+    len: usize,
+}
+
+impl<T, const N: usize> SmallVec<T, N> {
+    #[inline]
+    pub fn new() -> Self {
+        Self { buf: [const { MaybeUninit::uninit() }; MODEL_CAP], len: 0 }
+    }
+    #[inline]
+    pub fn with_capacity(_c: usize) -> Self {
+        Self::new()
+    }
+    #[inline]
+    pub fn from_vec(v: Vec<T>) -> Self {
+        let mut s = Self::new();
+        for t in v {
+            s.push(t);
+        }
+        s
+    }
+    #[inline]
+    pub fn from_slice_copy(src: &[T]) -> Self
+    where
+        T: Copy,
+    {
+        let mut s = Self::new();
+        let n = src.len();
+        model_bound(n <= MODEL_CAP);
+        let mut i = 0;
+        while i < n {
+            s.buf[i] = MaybeUninit::new(src[i]);
+            i += 1;
+        }
+        s.len = n;
+        s
+    }
+    #[inline]
+    pub fn from_slice(src: &[T]) -> Self
+    where
+        T: Clone,
+    {
+        let mut s = Self::new();
+        for t in src {
+            s.push(t.clone());
+        }
+        s
+    }
+    #[inline]
+    pub fn push(&mut self, t: T) {
+        let n = self.len;
+        model_bound(n < MODEL_CAP);
+        self.buf[n] = MaybeUninit::new(t);
+        self.len = n + 1;
+    }
+    #[inline]
+    pub fn pop(&mut self) -> Option<T> {
+        if self.len == 0 {
+            return None;
+        }
+        self.len -= 1;
+        Some(unsafe { self.buf[self.len].assume_init_read() })
+    }
+    #[inline]
+    pub fn clear(&mut self) {
+        self.truncate(0)
+    }
+    pub fn truncate(&mut self, n: usize) {
+        while self.len > n {
+            self.len -= 1;
+            unsafe { self.buf[self.len].assume_init_drop() };
+        }
+    }
+    #[inline]
+    pub fn as_slice(&self) -> &[T] {
+        unsafe { core::slice::from_raw_parts(self.buf.as_ptr() as *const T, self.len) }
+    }
+    #[inline]
+    pub fn as_mut_slice(&mut self) -> &mut [T] {
+        unsafe { core::slice::from_raw_parts_mut(self.buf.as_mut_ptr() as *mut T, self.len) }
+    }
+    #[inline]
+    pub fn capacity(&self) -> usize {
+        MODEL_CAP
+    }
+    #[inline]
+    pub fn spilled(&self) -> bool {
+        self.len > N
+    }
+    pub fn into_vec(self) -> Vec<T> {
+        let mut v = Vec::new();
+        for t in self {
+            v.push(t);
+        }
+        v
+    }
+    pub fn insert(&mut self, idx: usize, t: T) {
+        assert!(idx <= self.len, "insertion index out of bounds");
+        model_bound(self.len < MODEL_CAP);
+        let mut i = self.len;
+        while i > idx {
+            self.buf[i] = MaybeUninit::new(unsafe { self.buf[i - 1].assume_init_read() });
+            i -= 1;
+        }
+        self.buf[idx] = MaybeUninit::new(t);
+        self.len += 1;
+    }
+    pub fn remove(&mut self, idx: usize) -> T {
+        assert!(idx < self.len, "removal index out of bounds");
+        let t = unsafe { self.buf[idx].assume_init_read() };
+        let mut i = idx;
+        while i + 1 < self.len {
+            self.buf[i] = MaybeUninit::new(unsafe { self.buf[i + 1].assume_init_read() });
+            i += 1;
+        }
+        self.len -= 1;
+        t
+    }
+    pub fn swap_remove(&mut self, idx: usize) -> T {
+        assert!(idx < self.len, "swap_remove index out of bounds");
+        let t = unsafe { self.buf[idx].assume_init_read() };
+        self.len -= 1;
+        if idx != self.len {
+            self.buf[idx] = MaybeUninit::new(unsafe { self.buf[self.len].assume_init_read() });
+        }
+        t
+    }
+    pub fn retain<F: FnMut(&mut T) -> bool>(&mut self, mut f: F) {
+        let n = self.len;
+        self.len = 0; // elements are moved out one by one
+        let mut w = 0;
+        let mut r = 0;
+        while r < n {
+            let mut t = unsafe { self.buf[r].assume_init_read() };
+            if f(&mut t) {
+                self.buf[w] = MaybeUninit::new(t);
+                w += 1;
+            } else {
+                drop(t);
+            }
+            r += 1;
+        }
+        self.len = w;
+    }
+    pub fn append<const M: usize>(&mut self, other: &mut SmallVec<T, M>) {
+        let n = other.len;
+        other.len = 0;
+        let mut i = 0;
+        while i < n {
+            let t = unsafe { other.buf[i].assume_init_read() };
+            self.push(t);
+            i += 1;
+        }
+    }
+    pub fn extend_from_slice(&mut self, s: &[T])
+    where
+        T: Clone,
+    {
+        for t in s {
+            self.push(t.clone());
+        }
+    }
+    pub fn reserve(&mut self, _n: usize) {}
+
+    /// Model-only: a `push` that counts but does not store (no capacity bound).  Harnesses that
+    /// decide a claim about the NUMBER of entries only (the 1000-entry NAK cap) substitute it for
+    /// `push` with `#[kani::stub]`; such harnesses never read the elements.
+    pub fn model_push_count_only(&mut self, t: T) {
+        core::mem::forget(t);
+        self.len += 1;
+    }
+}
+
+impl<T, const N: usize> Drop for SmallVec<T, N> {
+    fn drop(&mut self) {
+        if core::mem::needs_drop::<T>() {
+            self.truncate(0);
+        }
+    }
 }
 
 impl<T, const N: usize> Default for SmallVec<T, N> {
@@ -17,112 +228,21 @@ impl<T, const N: usize> Default for SmallVec<T, N> {
     }
 }
 
-impl<T: core::fmt::Debug, const N: usize> core::fmt::Debug for SmallVec<T, N> {
-    fn fmt(&self, f: &mut core::fmt::Formatter<'_>) -> core::fmt::Result {
-        self.v.fmt(f)
+impl<T: Clone, const N: usize> Clone for SmallVec<T, N> {
+    fn clone(&self) -> Self {
+        let mut s = Self::new();
+        let mut i = 0;
+        while i < self.len {
+            s.push(self.as_slice()[i].clone());
+            i += 1;
+        }
+        s
     }
 }
 
-impl<T, const N: usize> SmallVec<T, N> {
-    #[inline]
-    pub fn new() -> Self {
-        Self { v: Vec::new() }
-    }
-    #[inline]
-    pub fn with_capacity(c: usize) -> Self {
-        Self { v: Vec::with_capacity(c) }
-    }
-    #[inline]
-    pub fn from_vec(v: Vec<T>) -> Self {
-        Self { v }
-    }
-    #[inline]
-    pub fn from_slice_copy(s: &[T]) -> Self
-    where
-        T: Copy,
-    {
-        Self { v: s.to_vec() }
-    }
-    #[inline]
-    pub fn from_slice(s: &[T]) -> Self
-    where
-        T: Clone,
-    {
-        Self { v: s.to_vec() }
-    }
-    #[inline]
-    pub fn push(&mut self, t: T) {
-        self.v.push(t)
-    }
-    #[inline]
-    pub fn pop(&mut self) -> Option<T> {
-        self.v.pop()
-    }
-    #[inline]
-    pub fn clear(&mut self) {
-        self.v.clear()
-    }
-    #[inline]
-    pub fn truncate(&mut self, n: usize) {
-        self.v.truncate(n)
-    }
-    #[inline]
-    pub fn as_slice(&self) -> &[T] {
-        &self.v
-    }
-    #[inline]
-    pub fn as_mut_slice(&mut self) -> &mut [T] {
-        &mut self.v
-    }
-    #[inline]
-    pub fn capacity(&self) -> usize {
-        self.v.capacity().max(N)
-    }
-    #[inline]
-    pub fn spilled(&self) -> bool {
-        self.v.len() > N
-    }
-    #[inline]
-    pub fn into_vec(self) -> Vec<T> {
-        self.v
-    }
-    #[inline]
-    pub fn insert(&mut self, i: usize, t: T) {
-        self.v.insert(i, t)
-    }
-    #[inline]
-    pub fn remove(&mut self, i: usize) -> T {
-        self.v.remove(i)
-    }
-    #[inline]
-    pub fn swap_remove(&mut self, i: usize) -> T {
-        self.v.swap_remove(i)
-    }
-    pub fn retain<F: FnMut(&mut T) -> bool>(&mut self, mut f: F) {
-        // hand-written (std's retain uses a drop guard + raw pointers)
-        let mut kept: Vec<T> = Vec::with_capacity(self.v.len());
-        let old = core::mem::take(&mut self.v);
-        for mut t in old {
-            if f(&mut t) {
-                kept.push(t);
-            }
-        }
-        self.v = kept;
-    }
-    pub fn append<const M: usize>(&mut self, other: &mut SmallVec<T, M>) {
-        self.v.append(&mut other.v)
-    }
-    pub fn extend_from_slice(&mut self, s: &[T])
-    where
-        T: Clone,
-    {
-        self.v.extend_from_slice(s)
-    }
-    pub fn drain<R: core::ops::RangeBounds<usize>>(&mut self, r: R) -> std::vec::Drain<'_, T> {
-        self.v.drain(r)
-    }
-    pub fn reserve(&mut self, n: usize) {
-        self.v.reserve(n)
+impl<T: core::fmt::Debug, const N: usize> core::fmt::Debug for SmallVec<T, N> {
+    fn fmt(&self, f: &mut core::fmt::Formatter<'_>) -> core::fmt::Result {
+        self.as_slice().fmt(f)
     }
 }
 
@@ -130,90 +250,133 @@ impl<T, const N: usize> Deref for SmallVec<T, N> {
     type Target = [T];
     #[inline]
     fn deref(&self) -> &[T] {
-        &self.v
+        self.as_slice()
     }
 }
 impl<T, const N: usize> DerefMut for SmallVec<T, N> {
     #[inline]
     fn deref_mut(&mut self) -> &mut [T] {
-        &mut self.v
+        self.as_mut_slice()
     }
 }
 impl<T, const N: usize> AsRef<[T]> for SmallVec<T, N> {
     fn as_ref(&self) -> &[T] {
-        &self.v
+        self.as_slice()
     }
 }
 impl<T, const N: usize> core::borrow::Borrow<[T]> for SmallVec<T, N> {
     fn borrow(&self) -> &[T] {
-        &self.v
+        self.as_slice()
+    }
+}
+
+pub struct IntoIter<T, const N: usize> {
+    v: SmallVec<T, N>,
+    pos: usize,
+    end: usize,
+}
+impl<T, const N: usize> Iterator for IntoIter<T, N> {
+    type Item = T;
+    #[inline]
+    fn next(&mut self) -> Option<T> {
+        if self.pos >= self.end {
+            return None;
+        }
+        let t = unsafe { self.v.buf[self.pos].assume_init_read() };
+        self.pos += 1;
+        Some(t)
+    }
+    fn size_hint(&self) -> (usize, Option<usize>) {
+        (self.end - self.pos, Some(self.end - self.pos))
+    }
+}
+impl<T, const N: usize> Drop for IntoIter<T, N> {
+    fn drop(&mut self) {
+        if core::mem::needs_drop::<T>() {
+            while self.pos < self.end {
+                unsafe { self.v.buf[self.pos].assume_init_drop() };
+                self.pos += 1;
+            }
+        }
     }
 }
 impl<T, const N: usize> IntoIterator for SmallVec<T, N> {
     type Item = T;
-    type IntoIter = std::vec::IntoIter<T>;
-    fn into_iter(self) -> Self::IntoIter {
-        self.v.into_iter()
+    type IntoIter = IntoIter<T, N>;
+    fn into_iter(mut self) -> IntoIter<T, N> {
+        let end = self.len;
+        self.len = 0; // ownership of the elements moves to the iterator
+        IntoIter { v: self, pos: 0, end }
     }
 }
 impl<'a, T, const N: usize> IntoIterator for &'a SmallVec<T, N> {
     type Item = &'a T;
     type IntoIter = core::slice::Iter<'a, T>;
     fn into_iter(self) -> Self::IntoIter {
-        self.v.iter()
+        self.as_slice().iter()
     }
 }
 impl<'a, T, const N: usize> IntoIterator for &'a mut SmallVec<T, N> {
     type Item = &'a mut T;
     type IntoIter = core::slice::IterMut<'a, T>;
     fn into_iter(self) -> Self::IntoIter {
-        self.v.iter_mut()
+        self.as_mut_slice().iter_mut()
     }
 }
 impl<T, const N: usize> FromIterator<T> for SmallVec<T, N> {
     fn from_iter<I: IntoIterator<Item = T>>(it: I) -> Self {
-        let mut v = Vec::new();
+        let mut s = Self::new();
         for t in it {
-            v.push(t);
+            s.push(t);
         }
-        Self { v }
+        s
     }
 }
 impl<T, const N: usize> Extend<T> for SmallVec<T, N> {
     fn extend<I: IntoIterator<Item = T>>(&mut self, it: I) {
         for t in it {
-            self.v.push(t);
+            self.push(t);
         }
     }
 }
 impl<T, const N: usize> From<Vec<T>> for SmallVec<T, N> {
     fn from(v: Vec<T>) -> Self {
-        Self { v }
+        Self::from_vec(v)
     }
 }
 impl<T: Clone, const N: usize> From<&[T]> for SmallVec<T, N> {
     fn from(s: &[T]) -> Self {
-        Self { v: s.to_vec() }
+        Self::from_slice(s)
     }
 }
 impl<T, const N: usize, const M: usize> From<[T; M]> for SmallVec<T, N> {
     fn from(a: [T; M]) -> Self {
-        Self { v: Vec::from(a) }
+        let mut s = Self::new();
+        for t in a {
+            s.push(t);
+        }
+        s
     }
 }
+impl<T: PartialEq, const N: usize, const M: usize> PartialEq<SmallVec<T, M>> for SmallVec<T, N> {
+    fn eq(&self, o: &SmallVec<T, M>) -> bool {
+        self.as_slice() == o.as_slice()
+    }
+}
+impl<T: Eq, const N: usize> Eq for SmallVec<T, N> {}
 impl<T: PartialEq, const N: usize> PartialEq<[T]> for SmallVec<T, N> {
     fn eq(&self, o: &[T]) -> bool {
-        self.v.as_slice() == o
+        self.as_slice() == o
     }
 }
 impl<T: PartialEq, const N: usize> PartialEq<Vec<T>> for SmallVec<T, N> {
     fn eq(&self, o: &Vec<T>) -> bool {
-        &self.v == o
+        self.as_slice() == o.as_slice()
     }
 }
 impl<T: PartialEq, const N: usize, const M: usize> PartialEq<[T; M]> for SmallVec<T, N> {
     fn eq(&self, o: &[T; M]) -> bool {
-        self.v.as_slice() == &o[..]
+        self.as_slice() == &o[..]
     }
 }
 
